@@ -206,6 +206,26 @@ Theorem C06_lstack_emptied_keeps_ghost_partial : forall t ops,
 Proof. exact ls_emptied_ghost. Qed.
 Print Assumptions C06_lstack_emptied_keeps_ghost_partial.
 
+(* ------------------------------------------------------------------ *)
+(* Indifference to the element type (see C05_Props §5): both stack     *)
+(* models — the linked one WITH its defect — commute with every        *)
+(* injective renaming of the elements that fixes the zero value; this  *)
+(* licenses the "instances" stream (Stack[string], LStack[struct] ...  *)
+(* through an injective codec).  All other theorems are over Z only.   *)
+(* ------------------------------------------------------------------ *)
+
+Theorem C06_stack_element_type_indifferent : forall (f : Z -> Z) ops,
+  (forall a b, f a = f b -> a = b) -> f 0 = 0 ->
+  outs ss_step ss_new (map (sop_map f) ops) = map (sout_map f) (outs ss_step ss_new ops).
+Proof. exact ss_equivariant. Qed.
+Print Assumptions C06_stack_element_type_indifferent.
+
+Theorem C06_lstack_element_type_indifferent : forall (f : Z -> Z) t ops,
+  (forall a b, f a = f b -> a = b) -> f 0 = 0 ->
+  outs ls_step (ls_new (f t)) (map (sop_map f) ops) = map (sout_map f) (outs ls_step (ls_new t) ops).
+Proof. exact ls_equivariant. Qed.
+Print Assumptions C06_lstack_element_type_indifferent.
+
 (* Non-vacuity: the invariant is inhabited in all three shapes — fresh, with
    several elements, and in the ghost state after emptying and refilling *)
 Example C06_example_states :
